@@ -57,6 +57,41 @@ def lex_attr_list(text):
     return out
 
 
+def scan_quoted(text, j):
+    """text[j] is the character after an opening double quote; scans a DOT double-quoted string
+    (only backslash-quote is an escape) and returns (value, index after the closing quote) or None"""
+    n = len(text)
+    val = []
+    while True:
+        if j >= n:
+            return None
+        ch = text[j]
+        if ch == BS and j + 1 < n and text[j + 1] == '"':
+            val.append('"')
+            j += 2
+            continue
+        if ch == '"':
+            return "".join(val), j + 1
+        val.append(ch)
+        j += 1
+
+
+def check_attr_text(text, before, label_value, after):
+    """text must read: before + label="<quoted label_value>" + after, where the quoted part is scanned with
+    the DOT rule (the concrete parts are compared as a whole: scanning them character by character through a
+    symbolic string costs CrossHair ~10 s per path and decides nothing)"""
+    pre = before + 'label="'
+    if not text.startswith(pre):
+        return False
+    r = scan_quoted(text, len(pre))
+    if r is None:
+        return False
+    val, j = r
+    if val != label_value:
+        return False
+    return text[j:] == after
+
+
 class _J(AbstractJob):
     pass
 
@@ -71,6 +106,17 @@ def protect_roundtrip(label: str) -> bool:
     return got == [("label", label)]
 
 
+def expected_rest(is_job, critical, forever):
+    st = []
+    if is_job:
+        st.append("rounded")
+    if forever:
+        st.append("dashed")
+    before = 'style="%s",' % ",".join(st)
+    after = ',shape="box"' + (',color="red",penwidth="2"' if critical else ',penwidth="0.5"')
+    return before, after
+
+
 def job_style(label: str, critical: bool, forever: bool) -> bool:
     """
     pre: _len_ok(label)
@@ -79,18 +125,8 @@ def job_style(label: str, critical: bool, forever: bool) -> bool:
     """
     job = _J(label=label, critical=critical, forever=forever)
     job._sched_id = "7"
-    got = lex_attr_list(repr(job.dot_style()))
-    if got is None:
-        return False
-    d = dict(got)
-    if len(d) != len(got):
-        return False
-    want = {"label": "7: " + label, "shape": "box",
-            "style": "rounded,dashed" if forever else "rounded",
-            "penwidth": "2" if critical else "0.5"}
-    if critical:
-        want["color"] = "red"
-    return d == want
+    before, after = expected_rest(True, critical, forever)
+    return check_attr_text(repr(job.dot_style()), before, "7: " + label, after)
 
 
 def cluster_style(label: str, critical: bool, forever: bool) -> bool:
@@ -101,37 +137,34 @@ def cluster_style(label: str, critical: bool, forever: bool) -> bool:
     """
     sched = Scheduler(label=label, critical=critical, forever=forever)
     sched._sched_id = "7"
-    got = lex_attr_list(repr(sched.dot_style()))
-    if got is None:
-        return False
-    d = dict(got)
-    if len(d) != len(got):
-        return False
-    want = {"label": "7: " + label, "shape": "box",
-            "style": "dashed" if forever else "",
-            "penwidth": "2" if critical else "0.5"}
-    if critical:
-        want["color"] = "red"
-    return d == want
+    before, after = expected_rest(False, critical, forever)
+    return check_attr_text(repr(sched.dot_style()), before, "7: " + label, after)
 
 
-CRIT = False
-FOREVER = False
-
-
-def job_style_fixed(label: str) -> bool:
+# reachability twins: the negated postcondition must be refuted by CrossHair (a passing input exists), which
+# shows that the preconditions are satisfiable and the end of the harness is reached
+def protect_roundtrip_twin(label: str) -> bool:
     """
     pre: _len_ok(label)
     pre: BS not in label
-    post: _ is True
+    post: _ is not True
     """
-    return job_style(label, CRIT, FOREVER)
+    return protect_roundtrip(label)
 
 
-def cluster_style_fixed(label: str) -> bool:
+def job_style_twin(label: str, critical: bool, forever: bool) -> bool:
     """
     pre: _len_ok(label)
     pre: BS not in label
-    post: _ is True
+    post: _ is not True
     """
-    return cluster_style(label, CRIT, FOREVER)
+    return job_style(label, critical, forever)
+
+
+def cluster_style_twin(label: str, critical: bool, forever: bool) -> bool:
+    """
+    pre: _len_ok(label)
+    pre: BS not in label
+    post: _ is not True
+    """
+    return cluster_style(label, critical, forever)
